@@ -30,6 +30,8 @@ func main() {
 		replays = flag.String("replays", "", "directory for counterexample files")
 		nomerge = flag.Bool("nomerge", false, "disable if-conversion")
 		verbose = flag.Bool("v", false, "verbose")
+		tier    = flag.String("tier", "quick", "quick|thorough (read by harnesses through vxThorough)")
+		known   = flag.String("known", "", "comma separated keys of open known findings (vxKnownOpen)")
 	)
 	flag.Parse()
 	ov := map[string]string{}
@@ -43,7 +45,12 @@ func main() {
 	}
 	cfg := Config{Repo: *repo, Tags: *tags, Pkg: *pkg, Overlay: ov, Workers: *workers, TimeoutMs: *timeout, Seed: *seed,
 		MaxInstrs: *maxi, NoMerge: *nomerge, Unwind: *unwind, UnwindCut: *cut, RecLimit: *rec, MaxViol: *maxv, MaxPaths: *maxp,
-		ReplayDir: *replays, Verbose: *verbose}
+		ReplayDir: *replays, Verbose: *verbose, Tier: *tier, Known: map[string]bool{}}
+	for _, k := range strings.Split(*known, ",") {
+		if k != "" {
+			cfg.Known[k] = true
+		}
+	}
 	g, err := Load(cfg)
 	if err != nil {
 		fmt.Fprintln(os.Stderr, "load error:", err)
